@@ -792,6 +792,29 @@ def call_method(vm, obj, name, args, kwargs):
         if name == 'format':
             return vm.contract.format_hook(vm, obj, args, kwargs)
         if name in ('join',):
+            hook = vm.hooks.get('str_join')
+            if hook:
+                r = hook(vm, obj, args[0])
+                if r is not NotImplemented:
+                    return r
+            if obj == '' and isinstance(args[0], I.GenCall) and vm.gencall_as_sseq(args[0]) is None:
+                # ''.join(<generator function call>): run the generator body, concatenating the yields into the ghost
+                # local __acc__ (annotated loops inside mention __acc__ in their invariants), as for sum(<generator>)
+                gc = args[0]
+                gc.env.set('__acc__', '')
+                old = vm.hooks.get('yield')
+                vm.hooks['yield'] = lambda v: gc.env.set('__acc__', vm.binop(ast.Add(), gc.env.get('__acc__'), v))
+                try:
+                    try:
+                        vm.exec_block(gc.clo.node.body, gc.env)
+                    except I._Return:
+                        pass
+                finally:
+                    if old is None:
+                        vm.hooks.pop('yield', None)
+                    else:
+                        vm.hooks['yield'] = old
+                return gc.env.get('__acc__')
             items = vm.iterate(args[0])
             if any(isinstance(i, Sym) for i in items):
                 raise OutOfSubset('join of symbolic strings')
